@@ -20,6 +20,11 @@ structure Inv (W : World) (s : St) : Prop where
   ready : s.alreadySetUp = true →
       ∃ t e a m p, s.tmpl = some t ∧ s.exam = some e ∧ s.act = some a ∧ s.att = some m ∧ s.spImage = some p ∧ W.zOk a = true ∧
         (s.useCache = true → ∃ ca cm, s.actCache = some ca ∧ s.attCache = some cm)
+  /-- coverage round 4: a scatter-point image derived with the automatic factors was derived from the current attenuation
+      image with the stored factors … -/
+  spAuto : ∀ m c, s.spImage = some (.auto m c) → s.att = some m ∧ s.zoom = none ∧ ∃ z, s.autoZ = some (c, z)
+  /-- … and the stored factors are the ones that would be computed now -/
+  autoZ : ∀ c z m t, s.zoom = none → s.autoZ = some (c, z) → s.att = some m → s.tmpl = some t → c = W.autoClass m t
 
 theorem inv_init (W : World) : Inv W init := by
   constructor <;> simp [init]
@@ -28,25 +33,43 @@ theorem inv_setActivity (W : World) (s : St) (k : Option Nat) (h : Inv W s) : In
   cases k with
   | none => exact h
   | some a =>
-    obtain ⟨h1, h2, h3, h4, h5, h6, h7, h8, h9, h10, h11⟩ := h
+    obtain ⟨h1, h2, h3, h4, h5, h6, h7, h8, h9, h10, h11, h12, h13⟩ := h
     constructor <;> (simp only [setActivity] at *) <;> (first | assumption | grind)
 
-theorem inv_setDensity (W : World) (s : St) (k : Option Nat) (h : Inv W s) : Inv W (setDensity k s).1 := by
+/-- what the guard `autoAttOk` gives: the stored automatic factors are those of the new attenuation image -/
+theorem autoAttOk_spec (W : World) (s : St) (m : Nat) (g : autoAttOk W s (some m) = true) :
+    ∀ c z t, s.zoom = none → s.autoZ = some (c, z) → s.tmpl = some t → c = W.autoClass m t := by
+  intro c z t hz ha ht
+  simp [autoAttOk, hz, ha, ht] at g
+  exact g
+
+/-- what the guard `autoTmplOk` gives: the stored automatic factors are those of the new template -/
+theorem autoTmplOk_spec (W : World) (s : St) (t : Tmpl) (g : autoTmplOk W s t = true) :
+    ∀ c z m, s.zoom = none → s.autoZ = some (c, z) → s.att = some m → c = W.autoClass m t := by
+  intro c z m hz ha hm
+  simp [autoTmplOk, hz, ha, hm] at g
+  exact g
+
+theorem inv_setDensity (W : World) (s : St) (k : Option Nat) (h : Inv W s) (g : autoAttOk W s k = true) :
+    Inv W (setDensity k s).1 := by
   cases k with
   | none => exact h
   | some a =>
-    obtain ⟨h1, h2, h3, h4, h5, h6, h7, h8, h9, h10, h11⟩ := h
+    have hg := autoAttOk_spec W s a g
+    obtain ⟨h1, h2, h3, h4, h5, h6, h7, h8, h9, h10, h11, h12, h13⟩ := h
     constructor <;> (simp only [setDensity] at *) <;> (first | assumption | grind)
 
-theorem inv_setTemplate (W : World) (s : St) (t : Tmpl) (h : Inv W s) : Inv W (setTemplate t s) := by
-  obtain ⟨h1, h2, h3, h4, h5, h6, h7, h8, h9, h10, h11⟩ := h
+theorem inv_setTemplate (W : World) (s : St) (t : Tmpl) (h : Inv W s) (g : autoTmplOk W s t = true) :
+    Inv W (setTemplate t s) := by
+  have hg := autoTmplOk_spec W s t g
+  obtain ⟨h1, h2, h3, h4, h5, h6, h7, h8, h9, h10, h11, h12, h13⟩ := h
   constructor <;> (simp only [setTemplate, setTemplateVal] at *) <;> (first | assumption | grind)
 
 theorem inv_setSpImage (W : World) (s : St) (k : Option Nat) (h : Inv W s) : Inv W (setSpImage k s).1 := by
   cases k with
   | none => exact h
   | some a =>
-    obtain ⟨h1, h2, h3, h4, h5, h6, h7, h8, h9, h10, h11⟩ := h
+    obtain ⟨h1, h2, h3, h4, h5, h6, h7, h8, h9, h10, h11, h12, h13⟩ := h
     constructor <;> (simp only [setSpImage, sampleScatterPoints] at *) <;> (first | assumption | grind)
 
 /-- the setters do not look at the pointer / the values they already hold: an in-place change followed by the setter with
@@ -62,51 +85,53 @@ theorem step_inPlace_eq (W : World) (s : St) (k : Nat) :
     step W s (.setDensityInPlace k) = step W s (.setDensity (some k)) ∧
     step W s (.setSpImageInPlace k) = step W s (.setSpImage (some k)) := ⟨rfl, rfl, rfl⟩
 
-theorem inv_setExam (W : World) (s : St) (e : Nat) (h : Inv W s) (g : opOk s (.setExam e) = true) : Inv W (setExam e s) := by
-  obtain ⟨h1, h2, h3, h4, h5, h6, h7, h8, h9, h10, h11⟩ := h
+theorem inv_setExam (W : World) (s : St) (e : Nat) (h : Inv W s) (g : opOk W s (.setExam e) = true) : Inv W (setExam e s) := by
+  obtain ⟨h1, h2, h3, h4, h5, h6, h7, h8, h9, h10, h11, h12, h13⟩ := h
   simp only [opOk, Bool.or_eq_true, Option.isNone_iff_eq_none, beq_iff_eq] at g
   constructor <;> (simp only [setExam] at *) <;> (first | assumption | grind)
 
-theorem inv_setZoom (W : World) (s : St) (z : Nat) (h : Inv W s) (g : opOk s (.setZoom z) = true) : Inv W (setZoom z s) := by
-  obtain ⟨h1, h2, h3, h4, h5, h6, h7, h8, h9, h10, h11⟩ := h
+theorem inv_setZoom (W : World) (s : St) (z : Nat) (h : Inv W s) (g : opOk W s (.setZoom z) = true) : Inv W (setZoom z s) := by
+  obtain ⟨h1, h2, h3, h4, h5, h6, h7, h8, h9, h10, h11, h12, h13⟩ := h
   simp only [opOk] at g
   constructor <;> (simp only [setZoom] at *) <;> (first | assumption | grind)
 
-theorem inv_setThr (W : World) (s : St) (t : Nat) (h : Inv W s) (g : opOk s (.setThr t) = true) : Inv W (setThr t s) := by
-  obtain ⟨h1, h2, h3, h4, h5, h6, h7, h8, h9, h10, h11⟩ := h
+theorem inv_setThr (W : World) (s : St) (t : Nat) (h : Inv W s) (g : opOk W s (.setThr t) = true) : Inv W (setThr t s) := by
+  obtain ⟨h1, h2, h3, h4, h5, h6, h7, h8, h9, h10, h11, h12, h13⟩ := h
   simp only [opOk, Bool.or_eq_true, Option.isNone_iff_eq_none, beq_iff_eq] at g
   constructor <;> (simp only [setThr] at *) <;> (first | assumption | grind)
 
-theorem inv_setCacheEnabled (W : World) (s : St) (b : Bool) (h : Inv W s) (g : opOk s (.setCacheEnabled b) = true) :
+theorem inv_setCacheEnabled (W : World) (s : St) (b : Bool) (h : Inv W s) (g : opOk W s (.setCacheEnabled b) = true) :
     Inv W (setCacheEnabled b s) := by
-  obtain ⟨h1, h2, h3, h4, h5, h6, h7, h8, h9, h10, h11⟩ := h
+  obtain ⟨h1, h2, h3, h4, h5, h6, h7, h8, h9, h10, h11, h12, h13⟩ := h
   simp only [opOk] at g
   constructor <;> (simp only [setCacheEnabled] at *) <;> (first | assumption | grind)
 
-theorem inv_setRndPlace (W : World) (s : St) (b : Bool) (h : Inv W s) (g : opOk s (.setRndPlace b) = true) :
+theorem inv_setRndPlace (W : World) (s : St) (b : Bool) (h : Inv W s) (g : opOk W s (.setRndPlace b) = true) :
     Inv W (setRndPlace b s) := by
-  obtain ⟨h1, h2, h3, h4, h5, h6, h7, h8, h9, h10, h11⟩ := h
+  obtain ⟨h1, h2, h3, h4, h5, h6, h7, h8, h9, h10, h11, h12, h13⟩ := h
   simp only [opOk, Bool.or_eq_true, Option.isNone_iff_eq_none, beq_iff_eq] at g
   constructor <;> (simp only [setRndPlace] at *) <;> (first | assumption | grind)
 
 /-- by file name: `set_exam_info` needs no guard here, the template setter that follows resets
     `detector_efficiency_no_scatter` -/
-theorem inv_setTemplateFile (W : World) (s : St) (e : Nat) (t : Tmpl) (h : Inv W s) : Inv W (setTemplateFile e t s) := by
-  obtain ⟨h1, h2, h3, h4, h5, h6, h7, h8, h9, h10, h11⟩ := h
+theorem inv_setTemplateFile (W : World) (s : St) (e : Nat) (t : Tmpl) (h : Inv W s) (g : autoTmplOk W s t = true) :
+    Inv W (setTemplateFile e t s) := by
+  have hg := autoTmplOk_spec W s t g
+  obtain ⟨h1, h2, h3, h4, h5, h6, h7, h8, h9, h10, h11, h12, h13⟩ := h
   constructor <;> (simp only [setTemplateFile, setTemplate, setTemplateVal, setExam] at *) <;> (first | assumption | grind)
 
-theorem inv_setUseCache (W : World) (s : St) (b : Bool) (h : Inv W s) (g : opOk s (.setUseCache b) = true) :
+theorem inv_setUseCache (W : World) (s : St) (b : Bool) (h : Inv W s) (g : opOk W s (.setUseCache b) = true) :
     Inv W (setUseCache b s) := by
-  obtain ⟨h1, h2, h3, h4, h5, h6, h7, h8, h9, h10, h11⟩ := h
+  obtain ⟨h1, h2, h3, h4, h5, h6, h7, h8, h9, h10, h11, h12, h13⟩ := h
   simp only [opOk] at g
   unfold setUseCache
   split
   · constructor <;> assumption
   · constructor <;> (simp only at *) <;> (first | assumption | grind)
 
-theorem inv_setDsBool (W : World) (s : St) (b : Bool) (h : Inv W s) (g : opOk s (.setDsBool b) = true) :
+theorem inv_setDsBool (W : World) (s : St) (b : Bool) (h : Inv W s) (g : opOk W s (.setDsBool b) = true) :
     Inv W (setDsBool b s) := by
-  obtain ⟨h1, h2, h3, h4, h5, h6, h7, h8, h9, h10, h11⟩ := h
+  obtain ⟨h1, h2, h3, h4, h5, h6, h7, h8, h9, h10, h11, h12, h13⟩ := h
   simp only [opOk] at g
   unfold setDsBool
   split
@@ -114,23 +139,31 @@ theorem inv_setDsBool (W : World) (s : St) (b : Bool) (h : Inv W s) (g : opOk s 
   · constructor <;> assumption
 
 theorem inv_setDsRings (W : World) (s : St) (n : Int) (h : Inv W s) : Inv W (setDsRings n s) := by
-  obtain ⟨h1, h2, h3, h4, h5, h6, h7, h8, h9, h10, h11⟩ := h
+  obtain ⟨h1, h2, h3, h4, h5, h6, h7, h8, h9, h10, h11, h12, h13⟩ := h
   unfold setDsRings
   split
   · constructor <;> (simp only at *) <;> (first | assumption | grind)
   · constructor <;> assumption
 
 theorem inv_setDsDets (W : World) (s : St) (n : Int) (h : Inv W s) : Inv W (setDsDets n s) := by
-  obtain ⟨h1, h2, h3, h4, h5, h6, h7, h8, h9, h10, h11⟩ := h
+  obtain ⟨h1, h2, h3, h4, h5, h6, h7, h8, h9, h10, h11, h12, h13⟩ := h
   unfold setDsDets
   split
   · constructor <;> (simp only at *) <;> (first | assumption | grind)
   · constructor <;> assumption
 
-theorem inv_setTemplateVal_g (W : World) (s : St) (t : Tmpl) (h : Inv W s) :
-    Inv W { setTemplateVal t s with gTmpl := some t } := inv_setTemplate W s t h
+theorem autoTmplOk_of_noAuto (W : World) (s : St) (t : Tmpl) (g : (s.zoom.isSome || s.autoZ.isNone) = true) :
+    autoTmplOk W s t = true := by
+  unfold autoTmplOk
+  cases hz : s.zoom with
+  | some z => simp
+  | none =>
+    cases ha : s.autoZ with
+    | none => simp
+    | some c => simp [hz, ha] at g
 
-theorem inv_downsampleScanner (W : World) (s : St) (r d : Int) (h : Inv W s) : Inv W (downsampleScanner W r d s).1 := by
+theorem inv_downsampleScanner (W : World) (s : St) (r d : Int) (h : Inv W s)
+    (g : opOk W s (.downsampleScanner r d) = true) : Inv W (downsampleScanner W r d s).1 := by
   unfold downsampleScanner downsampleScannerCore
   cases ht : s.tmpl with
   | none =>
@@ -139,18 +172,37 @@ theorem inv_downsampleScanner (W : World) (s : St) (r d : Int) (h : Inv W s) : I
   | some t =>
     simp only
     have := inv_setTemplate W s (downsampledTmpl t (dsRingsUsed W s t r) (dsDetsUsed W s t d)) h
+      (autoTmplOk_of_noAuto W s _ (by simpa [opOk] using g))
     simpa [setTemplate, setTemplateVal] using this
 
-theorem inv_downsampleSp (W : World) (s : St) (h : Inv W s) : Inv W (downsampleSp s).1 := by
+theorem inv_downsampleSp (W : World) (s : St) (h : Inv W s) : Inv W (downsampleSp W s).1 := by
   unfold downsampleSp
   cases hm : s.att with
   | none => exact h
   | some m =>
     cases hz : s.zoom with
-    | none => exact h
     | some z =>
-      obtain ⟨h1, h2, h3, h4, h5, h6, h7, h8, h9, h10, h11⟩ := h
+      obtain ⟨h1, h2, h3, h4, h5, h6, h7, h8, h9, h10, h11, h12, h13⟩ := h
       constructor <;> (simp only [sampleScatterPoints] at *) <;> (first | assumption | grind)
+    | none =>
+      cases ha : s.autoZ with
+      | some cz =>
+        obtain ⟨c, z⟩ := cz
+        obtain ⟨h1, h2, h3, h4, h5, h6, h7, h8, h9, h10, h11, h12, h13⟩ := h
+        constructor <;> (simp only [sampleScatterPoints] at *) <;> (first | assumption | grind)
+      | none =>
+        cases ht : s.tmpl with
+        | none => exact h
+        | some t =>
+          obtain ⟨h1, h2, h3, h4, h5, h6, h7, h8, h9, h10, h11, h12, h13⟩ := h
+          constructor <;> (simp only [sampleScatterPoints] at *) <;>
+            (first
+              | assumption
+              | grind
+              | (intro m' c' h
+                 simp only [Option.some.injEq, SpProv.auto.injEq] at h
+                 obtain ⟨rfl, rfl⟩ := h
+                 exact ⟨by first | rfl | trivial | assumption, by first | rfl | trivial | assumption, _, rfl⟩))
 
 
 theorem initialiseCache_off {σ : Type} (rows cols : Nat) (c : Option (Cache σ)) :
@@ -169,7 +221,7 @@ theorem initialiseCache_on {σ : Type} (rows cols : Nat) (c : Option (Cache σ))
 theorem inv_finishSetUp (W : World) (s : St) (t : Tmpl) (e a m : Nat) (p : SpProv) (h : Inv W s)
     (ht : s.tmpl = some t) (he : s.exam = some e) (ha : s.act = some a) (hm : s.att = some m) (hp : s.spImage = some p)
     (hz : W.zOk a = true) (hmc : s.maxCos = none) : Inv W (finishSetUp W s t) := by
-  obtain ⟨h1, h2, h3, h4, h5, h6, h7, h8, h9, h10, h11⟩ := h
+  obtain ⟨h1, h2, h3, h4, h5, h6, h7, h8, h9, h10, h11, h12, h13⟩ := h
   unfold finishSetUp
   have hn : nspOf W s = W.nsp ⟨p, s.thr, s.rnd⟩ := by simp [nspOf, h5 p hp]
   cases hu : s.useCache with
@@ -184,20 +236,26 @@ theorem inv_finishSetUp (W : World) (s : St) (t : Tmpl) (e a m : Nat) (p : SpPro
 
 
 theorem inv_clearMaxCos (W : World) (s : St) (h : Inv W s) : Inv W { s with maxCos := none } := by
-  obtain ⟨h1, h2, h3, h4, h5, h6, h7, h8, h9, h10, h11⟩ := h
+  obtain ⟨h1, h2, h3, h4, h5, h6, h7, h8, h9, h10, h11, h12, h13⟩ := h
   constructor <;> (simp only at *) <;> (first | assumption | grind)
 
-theorem downsampleSp_frame (s : St) :
-    (downsampleSp s).1.tmpl = s.tmpl ∧ (downsampleSp s).1.exam = s.exam ∧ (downsampleSp s).1.act = s.act ∧
-    (downsampleSp s).1.att = s.att ∧ (downsampleSp s).1.maxCos = s.maxCos ∧ (downsampleSp s).1.dsBool = s.dsBool ∧
-    ((downsampleSp s).2 = .ok → ∃ p, (downsampleSp s).1.spImage = some p) := by
+theorem downsampleSp_frame (W : World) (s : St) :
+    (downsampleSp W s).1.tmpl = s.tmpl ∧ (downsampleSp W s).1.exam = s.exam ∧ (downsampleSp W s).1.act = s.act ∧
+    (downsampleSp W s).1.att = s.att ∧ (downsampleSp W s).1.maxCos = s.maxCos ∧ (downsampleSp W s).1.dsBool = s.dsBool ∧
+    ((downsampleSp W s).2 = .ok → ∃ p, (downsampleSp W s).1.spImage = some p) := by
   unfold downsampleSp
   cases hm : s.att with
   | none => simp [hm]
   | some m =>
     cases hz : s.zoom with
-    | none => simp [hm]
-    | some z => simp [sampleScatterPoints, hm]
+    | some z => simp [sampleScatterPoints]
+    | none =>
+      cases ha : s.autoZ with
+      | some cz => obtain ⟨c, z⟩ := cz; simp [sampleScatterPoints]
+      | none =>
+        cases ht : s.tmpl with
+        | none => simp [hm, ht]
+        | some t => simp [sampleScatterPoints, ht]
 
 theorem inv_setUp (W : World) (s0 : St) (h0 : Inv W s0) : Inv W (setUp W s0).1 := by
   have h := inv_clearMaxCos W s0 h0
@@ -234,8 +292,8 @@ theorem inv_setUp (W : World) (s0 : St) (h0 : Inv W s0) : Inv W (setUp W s0).1 :
       | true => obtain ⟨_, _, _, _, p, _, _, _, _, hp', _⟩ := h.ready hsu; rw [hp] at hp'; cases hp'
     simp only [Option.isNone_none, if_true, hnot, Bool.false_eq_true, if_false]
     have hd := inv_downsampleSp W s h
-    obtain ⟨f1, f2, f3, f4, f5, f6, f7⟩ := downsampleSp_frame s
-    by_cases hr : (downsampleSp s).2 = .ok
+    obtain ⟨f1, f2, f3, f4, f5, f6, f7⟩ := downsampleSp_frame W s
+    by_cases hr : (downsampleSp W s).2 = .ok
     · obtain ⟨p, hp2⟩ := f7 hr
       simp only [hr, ne_eq, not_true_eq_false, if_false]
       by_cases hz : W.zOk a = true
@@ -262,7 +320,7 @@ theorem insertNew_cases {σ : Type} [DecidableEq σ] (x : σ) (l : List σ) (h :
 theorem process_ok (W : World) (s : St) (h : Inv W s) (hs : s.alreadySetUp = true) :
     ∃ t e a m p, s.tmpl = some t ∧ s.exam = some e ∧ s.act = some a ∧ s.att = some m ∧ s.spImage = some p ∧
       (process W s).2 = (.ok, some (expectedOut W t e a m p s.thr s.rnd)) := by
-  obtain ⟨h1, h2, h3, h4, h5, h6, h7, h8, h9, h10, h11⟩ := h
+  obtain ⟨h1, h2, h3, h4, h5, h6, h7, h8, h9, h10, h11, h12, h13⟩ := h
   obtain ⟨t, e, a, m, p, ht, he, ha, hm, hp, hz, hc⟩ := h11 hs
   refine ⟨t, e, a, m, p, ht, he, ha, hm, hp, ?_⟩
   have hsc := h5 p hp
@@ -292,7 +350,7 @@ theorem process_ok (W : World) (s : St) (h : Inv W s) (hs : s.alreadySetUp = tru
 
 theorem inv_process (W : World) (s : St) (h : Inv W s) : Inv W (process W s).1 := by
   by_cases hs : s.alreadySetUp = true
-  · obtain ⟨h1, h2, h3, h4, h5, h6, h7, h8, h9, h10, h11⟩ := h
+  · obtain ⟨h1, h2, h3, h4, h5, h6, h7, h8, h9, h10, h11, h12, h13⟩ := h
     obtain ⟨t, e, a, m, p, ht, he, ha, hm, hp, hz, hc⟩ := h11 hs
     have hsc := h5 p hp
     have hdet := insertNew_cases t s.detPts (h10 t ht)
@@ -362,7 +420,8 @@ theorem configure_fields (c : St) (t : Tmpl) (e a m : Nat)
     (configure c).dsBool = c.dsBool ∧ (configure c).alreadySetUp = false ∧ (configure c).effNoScatter = none ∧
     (configure c).maxCos = none ∧ (configure c).detPts = [] ∧ (configure c).actCache = none ∧ (configure c).attCache = none ∧
     (configure c).gSp = c.gSp ∧
-    (configure c).spImage = (c.gSp.map SpProv.given) ∧ (configure c).scatt = (c.gSp.map fun i => ⟨.given i, c.thr, c.rnd⟩) := by
+    (configure c).spImage = (c.gSp.map SpProv.given) ∧ (configure c).scatt = (c.gSp.map fun i => ⟨.given i, c.thr, c.rnd⟩) ∧
+    (configure c).autoZ = none := by
   unfold configure
   simp only [hg, he, ha, hm, setDsBool_eq, setDsRings_eq, setDsDets_eq, setUseCache_eq]
   cases hz : c.zoom <;> cases hs : c.gSp <;>
@@ -372,7 +431,7 @@ theorem configure_fields (c : St) (t : Tmpl) (e a m : Nat)
 theorem inv_configure (W : World) (c : St) (t : Tmpl) (e a m : Nat)
     (hg : c.gTmpl = some t) (he : c.exam = some e) (ha : c.act = some a) (hm : c.att = some m) (hds : c.dsBool = false) :
     Inv W (configure c) := by
-  obtain ⟨f1, f2, f3, f4, f5, f6, fr, f7, f8, f9, f10, f11, f12, f13, f14, f15, f16, f17, f18⟩ := configure_fields c t e a m hg he ha hm
+  obtain ⟨f1, f2, f3, f4, f5, f6, fr, f7, f8, f9, f10, f11, f12, f13, f14, f15, f16, f17, f18, f19⟩ := configure_fields c t e a m hg he ha hm
   cases hsp : c.gSp with
   | none =>
     simp only [hsp, Option.map_none] at f16 f17 f18
@@ -402,6 +461,19 @@ theorem setUp_none (W : World) (s : St) (t : Tmpl) (e a m z : Nat)
 
 
 
+/-- … with the default zoom factors: the factors are computed for the current attenuation image and template and stored -/
+theorem setUp_none_auto (W : World) (s : St) (t : Tmpl) (e a m : Nat)
+    (ht : s.tmpl = some t) (he : s.exam = some e) (ha : s.act = some a) (hm : s.att = some m) (hp : s.spImage = none)
+    (hzo : s.zoom = none) (haz : s.autoZ = none) (hsu : s.alreadySetUp = false)
+    (hds : s.dsBool = false) (hz : W.zOk a = true) :
+    setUp W s =
+      (finishSetUp W { s with maxCos := none, spImage := some (.auto m (W.autoClass m t)),
+                              autoZ := some (W.autoClass m t, t.rings), gSp := none,
+                              scatt := some ⟨.auto m (W.autoClass m t), s.thr, s.rnd⟩,
+                              actCache := none, attCache := none } t, .ok) := by
+  unfold setUp
+  simp [ht, he, ha, hm, hp, hds, hz, hzo, haz, hsu, downsampleSp, sampleScatterPoints]
+
 theorem freshOut_of_setUp (W : World) (c s1 : St) (o : Option Out) (h1 : setUp W (configure c) = (s1, .ok))
     (h2 : (process W s1).2 = (.ok, o)) : freshOut W c = (.ok, o) := by
   unfold freshOut
@@ -429,7 +501,7 @@ theorem freshOut_eq (W : World) (c : St) (h : Inv W c) (hs : c.alreadySetUp = tr
   refine ⟨t, e, a, m, p, ht, he, ha, hm, hp, ?_⟩
   have hg : c.gTmpl = some t := by rw [h.gTmpl, ht]
   have hds := h.dsOff
-  obtain ⟨f1, f2, f3, f4, f5, f6, fr, f7, f8, f9, f10, f11, f12, f13, f14, f15, f16, f17, f18⟩ := configure_fields c t e a m hg he ha hm
+  obtain ⟨f1, f2, f3, f4, f5, f6, fr, f7, f8, f9, f10, f11, f12, f13, f14, f15, f16, f17, f18, f19⟩ := configure_fields c t e a m hg he ha hm
   have hic := inv_configure W c t e a m hg he ha hm hds
   have hsu := inv_setUp W (configure c) hic
   cases p with
@@ -454,18 +526,32 @@ theorem freshOut_eq (W : World) (c : St) (h : Inv W c) (hs : c.alreadySetUp = tr
     exact fresh_from W c _ t e a m' (.down m' z) hset hsu (by simp [finishSetUp]) (by simp [finishSetUp, f1])
       (by simp [finishSetUp, f3]) (by simp [finishSetUp, f4]) (by simp [finishSetUp, f5]) (by simp [finishSetUp])
       (by simp [finishSetUp, f6]) (by simp [finishSetUp, fr])
+  | auto m' k =>
+    obtain ⟨hm', hzo, z, haz⟩ := h.spAuto m' k hp
+    have : m' = m := by rw [hm] at hm'; exact (Option.some.inj hm').symm
+    subst this
+    have hk : k = W.autoClass m' t := h.autoZ k z m' t hzo haz hm ht
+    subst hk
+    have hgs : c.gSp = none := by have := h.gSp; rw [hp] at this; exact this
+    rw [hgs] at f17
+    simp only [Option.map_none] at f17
+    have hset := setUp_none_auto W (configure c) t e a m' f1 f3 f4 f5 f17 (f7 ▸ hzo) f19 f10 (f9 ▸ hds) hz
+    rw [hset] at hsu
+    exact fresh_from W c _ t e a m' (.auto m' (W.autoClass m' t)) hset hsu (by simp [finishSetUp]) (by simp [finishSetUp, f1])
+      (by simp [finishSetUp, f3]) (by simp [finishSetUp, f4]) (by simp [finishSetUp, f5]) (by simp [finishSetUp])
+      (by simp [finishSetUp, f6]) (by simp [finishSetUp, fr])
 
 
 /-! ### histories -/
 
-theorem inv_step (W : World) (s : St) (op : Op) (h : Inv W s) (g : opOk s op = true) : Inv W (step W s op).1 := by
+theorem inv_step (W : World) (s : St) (op : Op) (h : Inv W s) (g : opOk W s op = true) : Inv W (step W s op).1 := by
   cases op with
-  | setTemplate t => exact inv_setTemplate W s t h
+  | setTemplate t => exact inv_setTemplate W s t h g
   | setActivity k => exact inv_setActivity W s k h
-  | setDensity k => exact inv_setDensity W s k h
+  | setDensity k => exact inv_setDensity W s k h g
   | setSpImage k => exact inv_setSpImage W s k h
   | setActivityInPlace a => exact inv_setActivity W s (some a) h
-  | setDensityInPlace m => exact inv_setDensity W s (some m) h
+  | setDensityInPlace m => exact inv_setDensity W s (some m) h g
   | setSpImageInPlace i => exact inv_setSpImage W s (some i) h
   | setExam e => exact inv_setExam W s e h g
   | setZoom z => exact inv_setZoom W s z h g
@@ -473,11 +559,11 @@ theorem inv_step (W : World) (s : St) (op : Op) (h : Inv W s) (g : opOk s op = t
   | setCacheEnabled b => exact inv_setCacheEnabled W s b h g
   | setUseCache b => exact inv_setUseCache W s b h g
   | setRndPlace b => exact inv_setRndPlace W s b h g
-  | setTemplateFile e t => exact inv_setTemplateFile W s e t h
+  | setTemplateFile e t => exact inv_setTemplateFile W s e t h g
   | setDsBool b => exact inv_setDsBool W s b h g
   | setDsRings n => exact inv_setDsRings W s n h
   | setDsDets n => exact inv_setDsDets W s n h
-  | downsampleScanner r d => exact inv_downsampleScanner W s r d h
+  | downsampleScanner r d => exact inv_downsampleScanner W s r d h g
   | downsampleSp => exact inv_downsampleSp W s h
   | setUp => exact inv_setUp W s h
   | process => exact inv_process W s h
@@ -488,7 +574,7 @@ theorem inv_runGuarded (W : World) (ops : List Op) (s s' : St) (h : Inv W s) (hr
   | nil => simp only [runGuarded, Option.some.injEq] at hr; exact hr ▸ h
   | cons op rest ih =>
     unfold runGuarded at hr
-    by_cases g : opOk s op = true
+    by_cases g : opOk W s op = true
     · simp only [g, Bool.not_true, Bool.false_eq_true, if_false] at hr
       have hi := inv_step W s op h g
       generalize hst : step W s op = x at hr hi
@@ -528,17 +614,17 @@ theorem pending_setUp (W : World) (s : St) (h : Pending W s) : (setUp W s).2 = .
   rcases hs with hs | hs
   · subst hs
     refine key _ ht he ha hm hp hds ?_
-    obtain ⟨h1, h2, h3, h4, h5, h6, h7, h8, h9, h10, h11⟩ := hinv
+    obtain ⟨h1, h2, h3, h4, h5, h6, h7, h8, h9, h10, h11, h12, h13⟩ := hinv
     constructor <;> (simp only [setCacheEnabled] at *) <;> (first | assumption | grind)
   · subst hs
     have hne : ¬ (true = s0.useCache) := by simp [huc]
     refine key _ (by simp [setUseCache, hne, ht]) (by simp [setUseCache, hne, he]) (by simp [setUseCache, hne, ha])
       (by simp [setUseCache, hne, hm]) (by simp [setUseCache, hne, hp]) (by simp [setUseCache, hne, hds]) ?_
-    obtain ⟨h1, h2, h3, h4, h5, h6, h7, h8, h9, h10, h11⟩ := hinv
+    obtain ⟨h1, h2, h3, h4, h5, h6, h7, h8, h9, h10, h11, h12, h13⟩ := hinv
     simp only [setUseCache, hne, if_false]
     constructor <;> (simp only at *) <;> (first | assumption | grind)
 
-theorem not_opOk_enable (s : St) (op : Op) (g : ¬ opOk s op = true) (he : isEnable op = true) :
+theorem not_opOk_enable (s : St) (op : Op) (g : ¬ opOk W s op = true) (he : isEnable op = true) :
     s.alreadySetUp = true ∧ s.useCache = false ∧ (op = .setCacheEnabled true ∨ op = .setUseCache true) := by
   cases op with
   | setCacheEnabled b => cases b <;> simp_all [isEnable, opOk]
@@ -555,13 +641,13 @@ theorem inv_runGuarded2 (W : World) (ops : List Op) (s s' : St)
   | cons op rest ih =>
     unfold runGuarded2 at hr
     rcases h with h | ⟨hp, hn⟩
-    · by_cases g : opOk s op = true
+    · by_cases g : opOk W s op = true
       · simp only [g, Bool.true_or, Bool.not_true, Bool.false_eq_true, if_false] at hr
         have hi := inv_step W s op h g
         generalize hst : step W s op = x at hr hi
         obtain ⟨s1, r, o⟩ := x
         cases r <;> simp only at hr <;> first | exact ih s1 (Or.inl hi) hr | cases hr
-      · have g' : opOk s op = false := by simpa using g
+      · have g' : opOk W s op = false := by simpa using g
         by_cases hen : (isEnable op && nextIsSetUp rest) = true
         · simp only [g', hen, Bool.or_true, Bool.not_true, Bool.false_eq_true, if_false] at hr
           simp only [Bool.and_eq_true] at hen
@@ -594,7 +680,7 @@ theorem runGuarded2_of_runGuarded (W : World) (ops : List Op) (s s' : St) (hr : 
   | cons op rest ih =>
     unfold runGuarded at hr
     unfold runGuarded2
-    by_cases g : opOk s op = true
+    by_cases g : opOk W s op = true
     · simp only [g, Bool.not_true, Bool.false_eq_true, if_false, Bool.true_or] at hr ⊢
       generalize hst : step W s op = x at hr ⊢
       obtain ⟨s1, r, o⟩ := x
